@@ -373,6 +373,16 @@ class Program:
             raise AnalysisError(f"anchor method {cls.short}.{name} not found")
         return cls.methods[name]
 
+    def method_view(self, cls: Cls, name: str) -> Func:
+        """own method of ``cls`` with the class's private helpers inlined (see sa/inline.py): what the statement-level rules read"""
+        from .inline import inline_view
+        return inline_view(self, cls, self.method(cls, name))
+
+    def resolve_view(self, cls: Cls, name: str) -> Optional[Func]:
+        from .inline import inline_view
+        f = self.resolve(cls, name)
+        return inline_view(self, cls, f) if f is not None else None
+
     def resolve(self, cls: Cls, name: str, after: Optional[Cls] = None) -> Optional[Func]:
         """method ``name`` as seen by an instance of concrete class ``cls`` (``after``: super() semantics)"""
         mro = cls.mro or [cls]
